@@ -930,9 +930,41 @@ def check_file_total(args):
         return "iterating a %d-byte Chapter 10 file yields %d items" % (len(data), len(st[1]))
     return None
 
+def check_file_big(args):
+    """one LARGE packet (payload of n bytes, a multiple of 4; the packet-length field is 32 bits wide and setup records
+    run to megabytes) followed by a small one: both come back from the file, in order, byte-identical"""
+    import AcraNetwork.IRIG106.Chapter11 as ch11
+    n = args["n"]
+    big = ch11.Chapter11()
+    big.channelID, big.sequence, big.payload = 1, 7, bytes((i * 7 + 3) & 0xFF for i in range(n))
+    small = ch11.Chapter11()
+    small.channelID, small.sequence, small.payload = 2, 8, b"\x01\x02\x03\x04"
+    bb, sb = big.pack(), small.pack()
+    fd, path = tempfile.mkstemp(prefix="acra_c12_", suffix=".ch10")
+    os.close(fd)
+    try:
+        _write_file(path, [("raw", bb), ("raw", sb)] if args.get("raw") else [("obj", {"channelID": 1, "sequence": 7}, big.payload), ("raw", sb)])
+        st = _iterate(path)
+        if st[0] != "ok":
+            return "iterating a file holding a %d-byte packet and a small one: %s" % (len(bb), st[0] if st[0] == "timeout" else st[1])
+        got = [bytes(x) for x in st[1]]
+        if got != [bb, sb]:
+            return "a file holding a %d-byte packet and a %d-byte packet reads back as %d items of lengths %r" % (
+                len(bb), len(sb), len(got), [len(x) for x in got])
+    finally:
+        os.unlink(path)
+    return None
+
 def oracles_C12(ctx, hints):
     fails, n = [], 0
     rng = ctx.rng
+    for nbytes in (65536, 524288 - 24, 524288, 1 << 20) + ((16 << 20,) if ctx.tier == "thorough" else ()):
+        args = {"n": nbytes, "raw": nbytes % 3 == 0}
+        n += 1
+        w = check_file_big(args)
+        if w:
+            fails.append(Failure("file_big", args, w, {"class": "FileParser", "check": "roundtrip", "size": "large"}))
+            break
     k = 3 if getattr(ctx, "search_mode", False) else 1
     for i in range(ctx.scale(60, 1500) * k):
         items = file_items(rng)
@@ -976,6 +1008,7 @@ def oracles_C08(ctx, hints):
 
 ORACLES["file_roundtrip"] = lambda a: (check_file_roundtrip(a) or [None])[0]
 ORACLES["file_total"] = check_file_total
+ORACLES["file_big"] = check_file_big
 
 # =================================================================================== C09: accept / reject boundaries
 def corr_C09(ctx):
